@@ -342,6 +342,25 @@ def run_gen_coords(spec, ctx, timeout=15, kwargs_extra=None, before_build=None, 
         bpath = ctx.dir / "build.bld"
         bpath.write_text("\n".join(spec["build"]) + "\n")
         kwargs["build"] = [bpath]
+        # -b takes several files: one time in three the top-level sections ([ molecule ], [ template ], [ volumes ],
+        # [ bending ], each with what follows it) are dealt out over two or three files, in their order
+        groups = []
+        for line in spec["build"]:
+            head = line.replace(" ", "")
+            if head in ("[molecule]", "[template]", "[volumes]", "[bending]") or not groups:
+                groups.append([])
+            groups[-1].append(line)
+        nfiles = (2, 3)[spec.get("rng", 0) % 2]
+        if spec.get("rng", 0) % 3 == 0 and len(groups) >= 2:
+            nfiles = min(nfiles, len(groups))
+            cuts = [round(k * len(groups) / nfiles) for k in range(nfiles + 1)]
+            kwargs["build"] = []
+            for k in range(nfiles):
+                part = ctx.dir / f"build_part{k}.bld"
+                part.write_text("\n".join(l for g in groups[cuts[k]:cuts[k + 1]] for l in g) + "\n")
+                kwargs["build"].append(part)
+            if hasattr(ctx, "label"):
+                ctx.label("several_build_files")
     coords = spec.get("coords")
     if coords:
         if coords.get("format") == "pdb":
